@@ -2,7 +2,7 @@
     Statements only; proofs in Proofs/ExprShapeProofs.v.  Model of the repaired evaluator
     (32df0c7, aee5bb9, e2ff44b, 037343a, 20bd893): every slice of the code is modelled with its byte offsets, and a slice off a
     character boundary or out of range is the value [RPanic]. *)
-From RRE Require Import Base.Sx Model.ExprShape Proofs.ExprShapeProofs.
+From RRE Require Import Base.Sx Base.Float Base.Num Model.ExprShape Proofs.ExprShapeProofs Model.BwExpr Proofs.BwExprProofs.
 Open Scope Z_scope.
 
 (** For EVERY string (any Unicode text, any length), any whitespace predicate and any number
@@ -26,9 +26,27 @@ Theorem C05_operator_slices_valid : forall (ws : Z -> bool) (is_num : str -> boo
 Proof. exact split_around. Qed.
 Print Assumptions C05_operator_slices_valid.
 
+(** The backward-chaining expression parser (ExpressionParser::parse, also reached through QueryParser and GRLQuery), for
+    EVERY input string and EVERY classification of characters by is_alphanumeric / is_numeric / is_whitespace: no index
+    input[position], input[next_pos] and no slice input[position..] of the parser is ever out of range ([Panic] is the
+    result of a failed guard in the model, which keeps every guard of the code), and the mutual recursion of
+    parse_expression / parse_and_expression / parse_comparison / parse_primary with its two loops ends within depth
+    6 * length + 8 ([Fuel] is never the result): positions only move forward and stay within the input. *)
+Theorem C05_bw_expression_parser_total : forall is_alnum is_num is_ws s,
+  BwExpr.parse is_alnum is_num is_ws s <> BwExpr.Panic /\ BwExpr.parse is_alnum is_num is_ws s <> BwExpr.Fuel.
+Proof. exact parse_total. Qed.
+Print Assumptions C05_bw_expression_parser_total.
+
 (** non-vacuity: the pre-repair witnesses are now plain errors naming the right leaf *)
 Example C05_example :
   shape_ident [233; 43; 97] = RErrField [233]            (* "é+a"  *)
   /\ shape_ident [233; 97] = RErrField [233; 97]          (* "éa"   *)
   /\ shape_ident [97; 32; 42; 32; 40; 98; 43; 120; 41] = RErrField [97].   (* "a * (b+x)" *)
 Proof. vm_compute. repeat split. Qed.
+
+(** the parser model on a concrete query: precedence of || below && below comparisons, negation, a variable, an escape *)
+Example C05_bw_example :
+  BwExpr.run_text [97; 32; 61; 61; 32; 49; 32; 38; 38; 32; 33; 98; 32; 124; 124; 32; 63; 88; 32; 33; 61; 32; 34; 92; 34; 34]
+  = L [A 0; L [L [A 5; L [A 4; L [A 3; L [A 0; L [A 97]]; A 0; L [A 1; L [A 3; A 4607182418800017408]]]; L [A 6; L [A 0; L [A 98]]]];
+                    L [A 3; L [A 2; L [A 63; A 88]]; A 1; L [A 1; L [A 2; L [A 34]]]]]]].
+Proof. vm_compute. reflexivity. Qed.
